@@ -145,7 +145,9 @@ def check(ctx, case, reqs, pend):
         scaled = None
         if w is not None:
             try:
-                scaled = np.asarray(xc.quantile(fa, p, weights=wa * 4.0, ignore_missing=ign), dtype=float)
+                # all weights times 4, or times 2^-40 (weights normalised over a huge population are this small)
+                factor = 4.0 if p in (0.0, 0.25, 0.9) else 2.0 ** -40
+                scaled = np.asarray(xc.quantile(fa, p, weights=wa * factor, ignore_missing=ign), dtype=float)
             except Exception:
                 scaled = None
         for cell, rows in rows_of.items():
@@ -183,7 +185,7 @@ def check(ctx, case, reqs, pend):
                                      "xs": [[R(a), R(b)] for a, b in zip(xo, wo)]})
                         pend.append((dict(d, cell=list(cell)), "wquantile", got))
                     if scaled is not None and not close(got, float(at(scaled, cell, c))):
-                        ctx.oracle_fail("weighted quantile(p=%s) cell %s changes from %r to %r when all weights are multiplied by 4" % (
+                        ctx.oracle_fail("weighted quantile(p=%s) cell %s changes from %r to %r when all weights are multiplied by 4 or 2^-40" % (
                             p, cell, got, float(at(scaled, cell, c))), d, cls="C18-wquantile-scale")
     # ---------------- min / max (one-column facts; float, int, datetime64) ----------------
     if K is None:
@@ -304,8 +306,11 @@ def run(ctx):
         if w is not None:
             if w[0] == "scalar":
                 case["weights"] = None
-            else:   # positive weights, all valid (weight validity is C03/C04's subject)
-                case["weights"] = ("array", np.array([ctx.rng.choice([0.5, 1.0, 2.0, 3.0]) for _ in range(case["N"])]),
+            else:   # positive weights, all valid (weight validity is C03/C04's subject); every fifth case tiny ones
+                tiny = 2.0 ** -40 if it % 5 == 2 else 1.0
+                if tiny != 1.0:
+                    ctx.hit("tiny_weights")
+                case["weights"] = ("array", tiny * np.array([ctx.rng.choice([0.5, 1.0, 2.0, 3.0]) for _ in range(case["N"])]),
                                    np.ones(case["N"], dtype=bool))
         if case["fact_form"] == "pair_int":
             case["fact_form"] = "pair"
